@@ -574,6 +574,15 @@ func (r *Resolver) groupLookup(ctx context.Context, rs *resolveState, req *dns.M
 	}
 	key := strconv.FormatUint(cache.Key(q), 10) + "|" + servers.Zone +
 		"|" + string(cd) + "|" + strconv.FormatUint(servers.Fingerprint(), 10)
+	// The client-subnet option the query carries (RFC 7871) is part of
+	// what the authority answers: two lookups that differ in it - one
+	// client's clamped subnet, another's, or none at all - may be handed
+	// different records, scoped to the subnet that was sent. A follower
+	// gets a copy of the leader's response, option included; one that
+	// sent no subnet has nothing to hold that echo against and its cache
+	// writer would file the leader's tailored answer for every audience.
+	// Only callers that send the same subnet share a wire lookup.
+	key += flightSubnetKey(req)
 
 	// The leader closure can outlive this caller: TimedDoChan returns on this
 	// caller's timeout/cancel while the shared generation remains registered
@@ -3302,6 +3311,23 @@ func (r *Resolver) clearAdditional(req, resp *dns.Msg, extra ...bool) *dns.Msg {
 	}
 
 	return resp
+}
+
+// flightSubnetKey is the part of groupLookup's key that names the
+// client-subnet option of req: empty without one (the common case costs
+// nothing), otherwise family, source prefix length and address.
+func flightSubnetKey(req *dns.Msg) string {
+	opt := req.IsEdns0()
+	if opt == nil {
+		return ""
+	}
+	for _, o := range opt.Option {
+		if sub, ok := o.(*dns.EDNS0_SUBNET); ok {
+			return "|ecs" + strconv.Itoa(int(sub.Family)) + "/" + sub.Address.String() +
+				"/" + strconv.Itoa(int(sub.SourceNetmask))
+		}
+	}
+	return ""
 }
 
 // responseSubnetOption returns the client-subnet option of an upstream
